@@ -69,6 +69,20 @@ CHECKS['C09'] = dict(
     technique='property-based testing (Hypothesis), round-trip differential '
               'under cloned RNG')
 
+CHECKS['C07'] = dict(
+    category='exploration', design_ref='DESIGN.md §8 (C07)',
+    text='Hypothesis-generated point sets (d=1..8, clustered, elongated, '
+         'curved, on faces/corners incl. coordinates exactly 0.0 and '
+         '1-2^-53, wrapped) and bound recipes of every class; checks '
+         'contains(sample(n)) across cache boundaries, cube membership, '
+         'enclosure of the rows each member was built from after every '
+         'split/trim, neural/nautilus contains => outer bound contains, '
+         'serial and through NautilusPool(2..3), and on the read-back copy.',
+    note='Real PCG64 variates only; general-position point sets; '
+         'NautilusBound recipes with < 2 % acceptance are skipped.',
+    technique='property-based testing (Hypothesis) with validity-predicate '
+              'oracles over generated inputs and operation histories')
+
 NOT_YET = {}
 
 
